@@ -104,20 +104,16 @@ type MemFS struct {
 	trace  []string
 }
 
-var (
-	memMu  sync.Mutex
-	memTab [1024]*MemFS
-)
+var memTab [1024]*MemFS
+
+func init() {
+	for i := range memTab {
+		memTab[i] = &MemFS{files: map[string][]byte{}}
+	}
+}
 
 // Mem returns the n-th in-memory file system (paths MemPrefix+"<n>/...").
-func Mem(n int) *MemFS {
-	memMu.Lock()
-	defer memMu.Unlock()
-	if memTab[n] == nil {
-		memTab[n] = &MemFS{files: map[string][]byte{}}
-	}
-	return memTab[n]
-}
+func Mem(n int) *MemFS { return memTab[n] }
 
 func (m *MemFS) Root(n int) string { return MemPrefix + strconv.Itoa(n) + "/" }
 
